@@ -375,7 +375,7 @@ pub fn configs(tier: Tier) -> (Vec<Cfg>, usize) {
     let mut v = vec![];
     let depth = match tier {
         Tier::Quick => 7,
-        Tier::Thorough => 9,
+        Tier::Thorough => 10,
     };
     for max_segments in [1usize, 2, 3] {
         v.push(Cfg {
@@ -412,7 +412,7 @@ pub fn run(tier: Tier) -> i32 {
     let (cfgs, depth) = configs(tier);
     let mut per_cfg = vec![];
     for cfg in cfgs.iter() {
-        let depth = if cfg.sizes.len() > 4 { depth.min(7) } else { depth };
+        let depth = if cfg.sizes.len() > 4 { depth.min(if tier == Tier::Quick { 7 } else { 8 }) } else { depth };
         let params = Params {
             depth_by_devs: vec![depth],
             max_states: 5_000_000,
